@@ -51,11 +51,13 @@ def package_copy():
 
 def plugin_text(st_):
     extra = ', ["zz", "", %r, [0, inf], "", ""]' % st_["zz"] if st_["zz"] is not None else ""
+    # an optional top-level attribute (a validity condition): present or absent, so that an edit can REMOVE a name
+    opt = ('valid = "rr < %r"\n' % st_["valid"]) if st_.get("valid") is not None else ""
     mult = "*zz" if st_["zz"] is not None else ""
     return ('from numpy import inf\nname = "plug17"\ntitle = "t"\ndescription = "d"\ncategory = "shape:sphere"\n'
             'parameters = [["rr", "Ang", %r, [0, inf], "", ""]%s]\nsource = ["%s"]\n'
             'c_code = """\n#ifndef VERIF_K3\n#define VERIF_K3 1.0\n#endif\n"""\n'
-            'Iq = "return %r*helper(q)*VERIF_K3*exp(-q*q*rr*rr)%s;"\n' % (st_["rr_default"], extra, st_.get("libname", "plug_lib.c"), st_["k1"], mult))
+            'Iq = "return %r*helper(q)*VERIF_K3*exp(-q*q*rr*rr)%s;"\n%s' % (st_["rr_default"], extra, st_.get("libname", "plug_lib.c"), st_["k1"], mult, opt))
 
 
 def wrapper_text(st_, base_path):
@@ -76,7 +78,7 @@ def header_text(st_):
 
 
 VALS = [1.5, 2.5, 0.75, 4.0, 3.25]
-EDITS = ["k1", "k2", "k3", "k4", "param", "default"]
+EDITS = ["k1", "k2", "k3", "k4", "param", "default", "valid"]
 
 
 @st.composite
@@ -93,13 +95,15 @@ def histories(draw):
                 return {"op": "k3", "value": draw(st.sampled_from(VALS))}
             if kind == "param":
                 return {"op": "param", "value": draw(st.sampled_from([2.0, 0.5]))}
+            if kind == "valid":
+                return {"op": "valid", "value": draw(st.sampled_from([None, 5.0, 1000.0]))}
             return {"op": "default", "value": draw(st.sampled_from([10.0, 30.0]))}
         ev = {"op": "eval", "where": "worker", "dtype": "double", "rr": None}
         first, second = draw(st.sampled_from(EDITS)), draw(st.sampled_from(EDITS))
         steps = [dict(ev), edit(first), dict(ev), edit(second), dict(ev)]
         n = draw(st.integers(0, 5))
     for _ in range(n):
-        kind = draw(st.sampled_from(["k1", "k2", "k3", "k4", "param", "default", "revert", "eval", "eval", "eval", "eval"]))
+        kind = draw(st.sampled_from(["k1", "k2", "k3", "k4", "param", "default", "valid", "revert", "eval", "eval", "eval", "eval"]))
         if kind in ("k1", "k2", "k4"):
             steps.append({"op": kind, "value": draw(st.sampled_from(VALS))})
         elif kind == "k3":
@@ -108,6 +112,8 @@ def histories(draw):
             steps.append({"op": "param", "value": draw(st.sampled_from([None, 2.0, 0.5]))})
         elif kind == "default":
             steps.append({"op": "default", "value": draw(st.sampled_from([10.0, 20.0, 30.0]))})
+        elif kind == "valid":
+            steps.append({"op": "valid", "value": draw(st.sampled_from([None, None, 5.0, 1000.0]))})
         elif kind == "revert":
             steps.append({"op": "revert", "file": draw(st.sampled_from(["plugin", "lib", "header", "wrapper"]))})
         else:
@@ -159,7 +165,8 @@ def check_history(case, rec):
     if case.get("dotted"):
         rec.cls("dotted-plugin-file-name")
     header = os.path.join(pkg, "sasmodels", "kernel_header.c")
-    state = {"k1": 1.5, "k2": 2.0, "k3": None, "zz": None, "rr_default": 20.0, "libname": libname, "k4": 1.0}
+    state = {"k1": 1.5, "k2": 2.0, "k3": None, "zz": None, "rr_default": 20.0, "libname": libname, "k4": 1.0,
+             "valid": None}
     clock = [1700000000]
     texts = {"plugin": [], "lib": [], "header": [], "wrapper": []}     # history of (text, state-fragment)
     use_wrapper = bool(case.get("wrapper"))
@@ -174,7 +181,7 @@ def check_history(case, rec):
             fh.write(text)
         clock[0] += 2
         os.utime(path, (clock[0], clock[0]))
-        frag = {"plugin": {k: state[k] for k in ("k1", "zz", "rr_default")}, "lib": {"k2": state["k2"]},
+        frag = {"plugin": {k: state[k] for k in ("k1", "zz", "rr_default", "valid")}, "lib": {"k2": state["k2"]},
                 "header": {"k3": state["k3"]}, "wrapper": {"k4": state["k4"]}}[which]
         texts[which].append(dict(frag))
     for w in ("lib", "plugin", "header") + (("wrapper",) if use_wrapper else ()):
@@ -207,6 +214,9 @@ def check_history(case, rec):
                 write("plugin")
             elif op == "default":
                 state["rr_default"] = step["value"]
+                write("plugin")
+            elif op == "valid":
+                state["valid"] = step["value"]
                 write("plugin")
             elif op == "revert":
                 hist = texts[step["file"]]
@@ -246,6 +256,8 @@ def check_history(case, rec):
             want = np.array([state["k1"] * state["k2"] * k3 * np.exp(-q * q * rr * rr) for q in QS])
             if state["zz"] is not None:
                 want = want * state["zz"]
+            if state["valid"] is not None and not (rr < state["valid"]):
+                want = want * 0.0          # outside the declared validity region: background (0) only
             tol = 5e-5 if step["dtype"] == "single" else 1e-12
             got = np.array(reply["values"])
             if not np.allclose(got, want, rtol=tol, atol=0):
